@@ -970,6 +970,112 @@ fn life_race_case(idx: Idx, ops: &[Life], ch: &mut Chooser) -> RaceResult {
 }
 
 // ---------------------------------------------------------------------------
+// Part F: power loss inside delete_collection, fresh process afterwards
+
+struct DeleteCrashResult {
+    problems: Vec<(String, String)>,
+    listed_after: bool,
+    residue: usize,
+}
+
+/// delete_collection on a collection with an unflushed acknowledged update; the power
+/// fails after its `k`-th backend mutation (`None` = it runs to completion). A fresh
+/// process then connects: a collection that is still listed must be complete (C01/C02
+/// oracles, every acknowledged document); one that is no longer listed must be deletable
+/// again by name, after which nothing remains under the prefix and the name is usable.
+fn delete_crash_case(idx: Idx, k: Option<u64>, dirty: bool) -> Option<DeleteCrashResult> {
+    let (live, model) = setup(idx, dirty);
+    let db = live.fx.db.clone();
+    let next_id = live.fx.coll.max_document_id() + 1;
+    let base = live.ctl.mutation_attempts();
+    if let Some(k) = k {
+        live.ctl.crash_after_mutations(base + k);
+    }
+    live.ctl.set_task(0);
+    let out = util::block_on(db.delete_collection(COLL_NAME));
+    let used = live.ctl.mutation_attempts() - base;
+    if let Some(k) = k
+        && used <= k
+    {
+        return None; // the call finished before reaching mutation k
+    }
+    let mut problems = Vec::new();
+    if k.is_none()
+        && let Err(e) = &out
+    {
+        problems.push(("delete-crash|fault-free-delete-failed".into(), format!("delete_collection failed without a fault: {e:?}")));
+    }
+    let content = ctlstore::snapshot(live.cs.inner());
+    drop(live);
+    // fresh process
+    anda_db_utils::verif::set_clock(Some((1_800_000_000_000, 1)));
+    let (cs, ctl) = vcore::ctlstore::CtlStore::over(ctlstore::restore(&content));
+    let label = match k {
+        Some(k) => format!("power loss after backend mutation #{k} of delete_collection"),
+        None => "completed delete_collection".to_string(),
+    };
+    let store: Arc<dyn object_store::ObjectStore> = cs.clone();
+    let db2 = match util::block_on(fixture::connect(store.clone())) {
+        Ok(d) => d,
+        Err(e) => {
+            problems.push(("delete-crash|connect".into(), format!("{label}: the database does not reconnect: {e:?}")));
+            return Some(DeleteCrashResult { problems, listed_after: false, residue: 0 });
+        }
+    };
+    let listed = db2.metadata().collections.contains(COLL_NAME);
+    let under_prefix = |cs: &Arc<vcore::ctlstore::CtlStore>| -> Vec<String> { ctlstore::snapshot(cs.inner()).into_keys().filter(|p| p.starts_with(PREFIX)).collect() };
+    let residue = under_prefix(&cs).len();
+    if k.is_none() && (listed || residue > 0) {
+        problems.push(("delete-crash|completed-delete-leaves-something".into(), format!("{label}: listed={listed}, objects under the prefix: {:?}", under_prefix(&cs))));
+    }
+    if listed {
+        // the delete had not become durable: the collection must be whole
+        let exp = expectation_from(&model, idx, &[], &[], next_id);
+        match util::block_on(fixture::open_coll_with(&db2, idx, idx)) {
+            Ok(coll) => {
+                let fx = Fixture { store: store.clone(), db: db2.clone(), coll, idx };
+                let (ps, _) = util::block_on(crash::check_state(&fx, &exp));
+                for (sig, msg) in ps {
+                    problems.push((format!("delete-crash|still-listed|{sig}"), format!("{label}: the collection is still listed but {msg}")));
+                }
+            }
+            Err(e) => problems.push(("delete-crash|still-listed|reopen".into(), format!("{label}: the collection is still listed but does not reopen: {e:?}"))),
+        }
+    } else {
+        // not listed any more: finishing the delete by name must work and leave nothing
+        ctl.set_task(61);
+        if let Err(e) = util::block_on(db2.delete_collection(COLL_NAME)) {
+            // an unknown collection may be refused; what matters is what is left and whether the name is usable
+            let _ = e;
+        }
+        let left = under_prefix(&cs);
+        let recreated = util::block_on(fixture::open_coll_with(&db2, idx, idx));
+        match recreated {
+            Ok(coll) => {
+                if coll.len() != 0 || !coll.ids().is_empty() {
+                    problems.push(("delete-crash|deleted-documents-resurface".into(), format!("{label}: a collection created under the deleted name holds {} document(s) of the deleted one (objects left before creation: {left:?})", coll.len())));
+                }
+                let fx = Fixture { store: store.clone(), db: db2.clone(), coll, idx };
+                let exp = expectation_from(&SeqModel::default(), idx, &[], &[], 1);
+                let (ps, resolved) = util::block_on(crash::check_state(&fx, &exp));
+                let clean = ps.is_empty();
+                for (sig, msg) in ps {
+                    problems.push((format!("delete-crash|recreated|{sig}"), format!("{label}, collection created again under the name: {msg}")));
+                }
+                if clean {
+                    let mut fx = fx;
+                    for (sig, msg) in util::block_on(crash::continuation(&mut fx, &exp, &resolved)) {
+                        problems.push((format!("delete-crash|recreated-cont|{sig}"), format!("{label}, collection created again under the name: {msg}")));
+                    }
+                }
+            }
+            Err(e) => problems.push(("delete-crash|name-unusable".into(), format!("{label}: the collection is not listed, a retried delete_collection was issued, and the name still cannot be created again: {e:?} (objects left: {left:?})"))),
+        }
+    }
+    Some(DeleteCrashResult { problems, listed_after: listed, residue })
+}
+
+// ---------------------------------------------------------------------------
 // Part C: a storage fault inside close / flush (every mutation x both answers)
 
 struct FaultResult {
@@ -1155,6 +1261,10 @@ fn main() {
             let dirty: Op = serde_json::from_value(r["dirty_op"].clone()).unwrap();
             let ans = if r["answer"] == "ErrAfter" { vcore::ctlstore::Answer::ErrAfter } else { vcore::ctlstore::Answer::ErrBefore };
             if let Some(res) = fault_case(idx, &call, &dirty, r["i"].as_u64().unwrap(), ans) {
+                problems = res.problems;
+            }
+        } else if r["kind"] == "delete-crash" {
+            if let Some(res) = delete_crash_case(idx, r["k"].as_u64(), r["dirty"].as_bool().unwrap_or(true)) {
                 problems = res.problems;
             }
         } else if r["kind"] == "life-race" {
@@ -1400,6 +1510,35 @@ fn main() {
         }
     }
 
+    // ---- Part F: power loss inside delete_collection
+    {
+        let mut items: Vec<(Option<u64>, bool)> = Vec::new();
+        for dirty in [true, false] {
+            items.push((None, dirty));
+            for k in 0..200u64 {
+                items.push((Some(k), dirty));
+            }
+        }
+        let results = util::par_map(items, threads, |(k, dirty)| (k, dirty, delete_crash_case(idx, k, dirty)));
+        let mut kinds = std::collections::BTreeSet::new();
+        for (k, dirty, r) in results {
+            let Some(r) = r else { continue };
+            run.add("delete_crash_points", 1);
+            run.add("executions", 1);
+            run.add("evaluations", 1);
+            kinds.insert((r.listed_after, r.residue > 0));
+            cancel_states.insert(format!("delete-crash|listed={}|residue={}", r.listed_after, r.residue > 0));
+            run.distinct(util::fnv64(format!("delete-crash {k:?} {dirty}").as_bytes()));
+            for (sig, msg) in r.problems {
+                run.violation(Violation { signature: format!("C06|{sig}"), summary: msg, replay: json!({"kind": "delete-crash", "k": k, "dirty": dirty}) });
+            }
+        }
+        run.sample(json!({"part": "delete-crash", "crash_points": run.get("delete_crash_points"), "distinct (still listed, residue under prefix) kinds": kinds.len()}));
+        if run.get("delete_crash_points") < 4 {
+            vcore::report::machinery("delete-crash part enumerated no crash point");
+        }
+    }
+
     // ---- Part E: lifecycle operations of one name racing each other
     {
         use Life::*;
@@ -1633,7 +1772,7 @@ fn main() {
     run.add("states", (outcome_kinds.len() + cancel_states.len()) as u64);
     run.set("completed", json!(completed));
     run.set("cancel_handle_states", json!(cancel_states));
-    run.rule("life-race: 2..3 (thorough 4) lifecycle calls on ONE collection name (close_collection, open_or_create with the index callback, delete_collection; 14 ordered sets) spawned together on a collection holding an acknowledged unflushed update, every schedule within the preemption bound: after a successful delete every handle is either retired and inert or an EMPTY collection created after it (listed, complete for a fresh process), nothing else remains under the prefix; without a delete the collection is listed, every Active handle agrees with the acknowledged history and close + reopen satisfies the C01/C02 oracles; fault: close / close_collection / flush with each of 4 unflushed acknowledged ops, every backend mutation of the call answered ErrBefore and ErrAfter: a non-Active handle rejects everything and writes nothing, reopening through the same database satisfies the C01/C02 oracles; poison-race: a call cancelled at any suspension point (a deviation) while another call is in flight, the caller then reopens through the same database - directly, and after a close_collection that fails on the poisoned handle - concurrently with the survivor, all schedules within the bound: the reopened handle satisfies the C01/C02 oracles with the survivor acknowledged and the victim all-or-nothing; cancel: each of 14 mutating APIs (clean and dirty collection) dropped after k polls for every k up to completion; race: each of 6 lifecycle transitions x every set of k operations from a 5-operation alphabet (always a dirty collection so flush/close write), every interleaving with <= B preemptions; oracle on the attributed mutation journal + retained-handle battery (10 mutating APIs, before and after set_read_only(false)) + reopen through the same database handle with the C01/C02 oracles; states = distinct (outcome vector, admission classification) kinds");
+    run.rule("delete-crash: delete_collection on a clean and on a dirty collection with the power failing after each of its backend mutations (and the completed call): a fresh process must reconnect; a collection that is still listed must be whole (C01/C02 oracles); one that is no longer listed must leave a usable name - after a retried delete by name nothing of it resurfaces in a collection created again under that name, which must itself be complete and accept writes; life-race: 2..3 (thorough 4) lifecycle calls on ONE collection name (close_collection, open_or_create with the index callback, delete_collection; 14 ordered sets) spawned together on a collection holding an acknowledged unflushed update, every schedule within the preemption bound: after a successful delete every handle is either retired and inert or an EMPTY collection created after it (listed, complete for a fresh process), nothing else remains under the prefix; without a delete the collection is listed, every Active handle agrees with the acknowledged history and close + reopen satisfies the C01/C02 oracles; fault: close / close_collection / flush with each of 4 unflushed acknowledged ops, every backend mutation of the call answered ErrBefore and ErrAfter: a non-Active handle rejects everything and writes nothing, reopening through the same database satisfies the C01/C02 oracles; poison-race: a call cancelled at any suspension point (a deviation) while another call is in flight, the caller then reopens through the same database - directly, and after a close_collection that fails on the poisoned handle - concurrently with the survivor, all schedules within the bound: the reopened handle satisfies the C01/C02 oracles with the survivor acknowledged and the victim all-or-nothing; cancel: each of 14 mutating APIs (clean and dirty collection) dropped after k polls for every k up to completion; race: each of 6 lifecycle transitions x every set of k operations from a 5-operation alphabet (always a dirty collection so flush/close write), every interleaving with <= B preemptions; oracle on the attributed mutation journal + retained-handle battery (10 mutating APIs, before and after set_read_only(false)) + reopen through the same database handle with the C01/C02 oracles; states = distinct (outcome vector, admission classification) kinds");
     run.assume("await granularity (one scheduling point per backend call and per async-lock wait); operations in one race set touch different documents so that a task blocked before its first backend call is waiting for admission (operation gate), not for a document lock");
     run.finish();
 }
